@@ -138,8 +138,8 @@ impl Property for C38Prop {
     }
     fn budget(&self, tier: Tier) -> Budget {
         match tier {
-            Tier::Quick => Budget { runs: 60_000, wall_cap_s: 35 },
-            Tier::Thorough => Budget { runs: 600_000, wall_cap_s: 330 },
+            Tier::Quick => Budget { runs: 120_000, wall_cap_s: 35 },
+            Tier::Thorough => Budget { runs: 1_200_000, wall_cap_s: 330 },
         }
     }
     fn modes(&self) -> u32 {
@@ -152,7 +152,7 @@ impl Property for C38Prop {
         }
     }
     fn rule(&self) -> &'static str {
-        "one run = one registry, 1..3 members, 2..14 operations chosen by the stream: add a long-term / one-time bundle (lifetime drawn relative to the clock: valid, about to expire, expired, not yet valid, 3 months; fault mode also ends-now, starts-now, single instant, inverted, unbounded, and signatures corrupted in five ways), query long-term / one-time for a member, let 0.3 s .. 1000 s pass, remove_expired, and in the fault mode clock jumps back (1 .. 5000 s) and far forward; non-trivial = at least one accepted add followed by a query; distinct = distinct trace"
+        "one run = one registry, 1..3 members, 3..16 operations chosen by the stream: add a long-term / one-time bundle (lifetime drawn relative to the clock: valid, about to expire, expired, not yet valid, 3 months; fault mode also ends-now, starts-now, single instant, inverted, unbounded, and signatures corrupted in five ways), query long-term / one-time for a member, let 0.3 s .. 1000 s pass, remove_expired, and in the fault mode clock jumps back (1 .. 5000 s) and far forward; non-trivial = at least one accepted add followed by a query; distinct = distinct trace"
     }
     fn components_real(&self) -> Vec<&'static str> {
         vec![
@@ -168,6 +168,7 @@ impl Property for C38Prop {
     fn assumptions(&self) -> Vec<&'static str> {
         vec![
             "a lifetime is certainly invalid at time t (whole seconds) iff t < not_before or t > not_after or not_before > not_after; at t == not_before and t == not_after both answers are accepted",
+            "'signature does not verify' means: not accepted by the scheme's verification of the pre-key bytes under the bundle's identity key; flipping bit 255 of s, which xeddsa_verify masks off, leaves a verifying signature and is treated as such",
             "every bundle of one member carries that member's identity key or fails verification (a verifying bundle with a different identity key for a known member hits an assert_eq! in add_*_bundle; that is outside this property and not generated)",
             "a rejected add consumes the state it was given; the caller keeps its previous state, so 'registry unchanged' holds by construction of the API",
         ]
@@ -216,14 +217,16 @@ impl Property for C38Prop {
         ev!("members: {}", members.iter().enumerate().map(|(i, m)| format!("m{i}={}", hex4(m.identity_pk.as_bytes()))).collect::<Vec<_>>().join(" "));
 
         let mut y: KeyRegistryState<usize> = KeyRegistry::init();
-        let steps = ctx::range("steps", 2, 14);
+        let steps = ctx::range("steps", 3, 16);
         let mut made = 0u64;
         let mut accepted_any = false;
         let mut queried_after_accept = false;
 
         for _ in 0..steps {
-            let nact = if faulty { 8 } else { 6 };
-            let act = ctx::choose("action", nact);
+            // Weighted action table; index 0 = add a long-term bundle.
+            const TABLE: [usize; 14] = [0, 1, 2, 3, 4, 0, 1, 2, 3, 4, 5, 6, 7, 6];
+            let nact = if faulty { 14 } else { 11 };
+            let act = TABLE[ctx::choose("action", nact)];
             match act {
                 // ---- add a bundle -------------------------------------------------------------
                 0 | 1 => {
@@ -240,13 +243,23 @@ impl Property for C38Prop {
                         Err(e) => panic!("sign: {e}"),
                     };
                     let mut identity_pk = members[m].identity_pk;
+                    let mut malleable = false;
                     let (signature, sig_note): (XSignature, &'static str) = match sig_fault {
                         0 => (good, "ok"),
                         1 => {
                             let mut b = good.to_bytes();
                             let at = ctx::choose("sig.byte", 64);
-                            b[at] ^= 1 << ctx::choose("sig.bit", 8);
-                            (XSignature::from_bytes(b), "bit-flipped")
+                            let bit = ctx::choose("sig.bit", 8);
+                            b[at] ^= 1 << bit;
+                            if at == 63 && bit == 7 {
+                                // XEdDSA as implemented here (and in libsignal) ignores bit 255 of
+                                // s: `xeddsa_verify` masks it off, so this signature still
+                                // verifies — malleable, but not "a signature that does not verify".
+                                malleable = true;
+                                (XSignature::from_bytes(b), "bit-255-of-s-flipped (ignored by xeddsa_verify)")
+                            } else {
+                                (XSignature::from_bytes(b), "bit-flipped")
+                            }
                         }
                         2 => (xeddsa_sign(b"some other payload", &members[m].identity, &rng).expect("sign"), "over-other-payload"),
                         3 => (prekey.sign(&stranger, &rng).expect("sign"), "by-foreign-key"),
@@ -256,7 +269,9 @@ impl Property for C38Prop {
                         }
                         _ => (XSignature::from_bytes([0u8; 64]), "all-zero"),
                     };
-                    if sig_fault != 0 {
+                    if malleable {
+                        ctx::fault("tamper.signature_ignored_bit");
+                    } else if sig_fault != 0 {
                         ctx::fault("tamper.signature");
                     }
                     let onetime = if kind == Kind::OneTime && ctx::choose("otk", 4) != 3 {
@@ -265,7 +280,7 @@ impl Property for C38Prop {
                     } else {
                         None
                     };
-                    let meta = Meta { label: format!("b{made}"), not_before: nb, not_after: na, sig_ok: sig_fault == 0, sig_note };
+                    let meta = Meta { label: format!("b{made}"), not_before: nb, not_after: na, sig_ok: sig_fault == 0 || malleable, sig_note };
                     let b = Made { prekey, identity_pk, signature, onetime, meta };
                     let now = now_s();
                     let status = b.meta.status(now);
@@ -302,6 +317,9 @@ impl Property for C38Prop {
                                 violation("accepted-invalid-bundle", &site, format!("add_{}_bundle returned Ok for {} (lifetime [{} .. {}] is {:?} at clock {}, signature {})", kind.name(), b.meta.label, rel(nb), rel(na), status, rel(now), sig_note));
                             } else if status == LifetimeStatus::Inside {
                                 ctx::probe("valid_bundle_accepted");
+                                if malleable {
+                                    ctx::probe("signature_with_flipped_ignored_bit_accepted");
+                                }
                             }
                             if let Some(kb) = lt_bundle {
                                 members[m].accepted_lt.push((kb, b.meta.clone()));
@@ -330,8 +348,8 @@ impl Property for C38Prop {
                 2 | 3 => {
                     let kind = if act == 2 { Kind::LongTerm } else { Kind::OneTime };
                     // Now and then ask for somebody the registry has never heard of.
-                    let m = ctx::choose("member", nmem + 1);
-                    let m = if m == nmem { 7 } else { m };
+                    let m = ctx::choose("member", nmem);
+                    let m = if ctx::chance("member.unknown", 1, 12) { 7 } else { m };
                     let now = now_s();
                     let known: Vec<Meta> = if m < nmem {
                         match kind {
